@@ -42,10 +42,27 @@ func vParam(allowEch, allowFree bool) string {
 		return "port=443"
 	case 2:
 		if allowEch {
-			if vBool() {
+			switch vInt(0, 3) {
+			case 0:
 				return `ech="` + vCur64 + `"`
+			case 1:
+				return "ech=" + vCur64
+			case 2: // another spelling that decodes to the same bytes is NOT the current value: padding dropped or added
+				if vCur64[len(vCur64)-1] == '=' {
+					return `ech="` + vCur64[:len(vCur64)-1] + `"`
+				}
+				return `ech="` + vCur64 + `="`
 			}
-			return "ech=" + vCur64
+			// the URL-safe alphabet
+			u := []byte(vCur64)
+			for i := range u {
+				if u[i] == '+' {
+					u[i] = '-'
+				} else if u[i] == '/' {
+					u[i] = '_'
+				}
+			}
+			return `ech="` + string(u) + `"`
 		}
 		return "ipv4hint=1.2.3.4"
 	}
